@@ -14,6 +14,7 @@ def handle (line : String) : String :=
   | ["estimate", d] => estimateLine (unhex d)
   | ["estimatefull", d] => estimateFullLine (unhex d)
   | ["public", d] => publicLine (unhex d)
+  | ["recompress", p, c] => recompressLine (unhex p) (unhex c)
   | "inrange" :: rest => inRangeLine rest
   | "analyze" :: rest => analyzeLine rest
   | "analyzefull" :: rest => analyzeFullLine rest
